@@ -73,9 +73,9 @@ Proof.
 Qed.
 
 (* ---------------------------------------------------------------- frame *)
-Theorem frame k o e : installs e (snd (step k o e)) = false -> oauthd (fst (step k o e)) = oauthd o.
+Theorem frame k o e : installs e (snd (step5 k o e)) = false -> oauthd (fst (step5 k o e)) = oauthd o.
 Proof.
-  destruct e; cbn [step]; intro H.
+  destruct e; cbn [step5]; intro H.
   - apply decode_frame. intro E. rewrite E in H. discriminate.
   - apply produce_frame. intro E. rewrite E in H. discriminate.
   - apply consume_frame.
@@ -104,6 +104,12 @@ Qed.
 
 (* ---------------------------------------------------------------- what a successful produce installs *)
 Definition single (k : kind) : bool := match k with KSign => false | _ => true end.    (* the five single-key kinds *)
+Lemma step_single k o e : single k = true -> step k o e = step5 k o e.
+Proof. destruct k; try discriminate; reflexivity. Qed.
+
+Theorem frame_single k o e : single k = true -> installs e (snd (step k o e)) = false -> oauthd (fst (step k o e)) = oauthd o.
+Proof. intros Hk. rewrite (step_single k o e Hk). apply frame. Qed.
+
 
 Theorem produce_installs k o p ext draw o' :
   produce_step k o p ext draw = (o', ROk) ->
@@ -190,31 +196,31 @@ Proof.
   exists prot', pb, w. repeat split; try assumption. eapply prepared_passes_gate; [exact Wf|eassumption].
 Qed.
 
-Lemma step_origin k o g e : single k = true -> op_wf k e -> origin_ok k o g -> origin_ok k (fst (step k o e)) (track k g e (snd (step k o e))).
+Lemma step_origin k o g e : single k = true -> op_wf k e -> origin_ok k o g -> origin_ok k (fst (step5 k o e)) (track k g e (snd (step5 k o e))).
 Proof.
   intros Hk Wf H. destruct e.
-  - cbn [step]. destruct (decode_step k o data) as [o' r] eqn:D. cbn [fst snd].
+  - cbn [step5]. destruct (decode_step k o data) as [o' r] eqn:D. cbn [fst snd].
     pose proof (decode_origin k o g data o' r D H) as R. destruct r; exact R.
-  - cbn [step]. destruct (produce_step k o p ext draw) as [o' r] eqn:D. cbn [fst snd].
+  - cbn [step5]. destruct (produce_step k o p ext draw) as [o' r] eqn:D. cbn [fst snd].
     pose proof (produce_origin k o g p ext draw o' r Hk Wf D H) as R. destruct r; exact R.
-  - cbn [step]. replace (track k g (OConsume p ext) (snd (consume_step k o p ext))) with g by (destruct (snd (consume_step k o p ext)); reflexivity).
+  - cbn [step5]. replace (track k g (OConsume p ext) (snd (consume_step k o p ext))) with g by (destruct (snd (consume_step k o p ext)); reflexivity).
     eapply origin_ok_frame; [apply consume_frame|exact H].
-  - cbn [step fst snd]. replace (track k g OMarshal (marshal_out k o)) with g by (destruct (marshal_out k o); reflexivity). exact H.
-  - cbn [step fst snd track]. eapply origin_ok_frame; [apply oauthd_with_prot|exact H].
-  - cbn [step fst snd track]. eapply origin_ok_frame; [apply oauthd_with_prot|exact H].
-  - cbn [step fst snd track]. eapply origin_ok_frame; [apply oauthd_with_prot|exact H].
-  - cbn [step fst snd track]. destruct (o_unprot o); (eapply origin_ok_frame; [|exact H]); [apply oauthd_upd_unprot|apply oauthd_new_unprot].
-  - cbn [step fst snd track]. destruct (o_unprot o); [eapply origin_ok_frame; [apply oauthd_upd_unprot|exact H]|exact H].
-  - cbn [step fst snd track]. eapply origin_ok_frame; [apply oauthd_new_unprot|exact H].
-  - cbn [step fst snd track]. eapply origin_ok_frame; [apply oauthd_with_payload|exact H].
-  - cbn [step fst snd track]. exact H.
+  - cbn [step5 fst snd]. replace (track k g OMarshal (marshal_out k o)) with g by (destruct (marshal_out k o); reflexivity). exact H.
+  - cbn [step5 fst snd track]. eapply origin_ok_frame; [apply oauthd_with_prot|exact H].
+  - cbn [step5 fst snd track]. eapply origin_ok_frame; [apply oauthd_with_prot|exact H].
+  - cbn [step5 fst snd track]. eapply origin_ok_frame; [apply oauthd_with_prot|exact H].
+  - cbn [step5 fst snd track]. destruct (o_unprot o); (eapply origin_ok_frame; [|exact H]); [apply oauthd_upd_unprot|apply oauthd_new_unprot].
+  - cbn [step5 fst snd track]. destruct (o_unprot o); [eapply origin_ok_frame; [apply oauthd_upd_unprot|exact H]|exact H].
+  - cbn [step5 fst snd track]. eapply origin_ok_frame; [apply oauthd_new_unprot|exact H].
+  - cbn [step5 fst snd track]. eapply origin_ok_frame; [apply oauthd_with_payload|exact H].
+  - cbn [step5 fst snd track]. exact H.
 Qed.
 
 Theorem history_origin k : single k = true -> forall ops o g, Forall (op_wf k) ops -> origin_ok k o g -> origin_ok k (final k o ops) (origin_after k o g ops).
 Proof.
   intro Hk. induction ops as [|e r IH]; intros o g W H; cbn [final origin_after]; [exact H|].
   inversion W as [|? ? We Wr]; subst.
-  pose proof (step_origin k o g e Hk We H) as S. destruct (step k o e) as [o' x]. cbn [fst snd] in *. apply IH; assumption.
+  pose proof (step_origin k o g e Hk We H) as S. rewrite (step_single k o e Hk). destruct (step5 k o e) as [o' x]. cbn [fst snd] in *. apply IH; assumption.
 Qed.
 
 Corollary history_origin_fresh k ops : single k = true -> Forall (op_wf k) ops -> origin_ok k (final k fresh ops) (origin_after k fresh FromNothing ops).
@@ -370,13 +376,13 @@ Definition decode_then_consume (k : kind) (p : prims) (data : bytes) (ext : opti
 
 Definition view_out (r : res view) (x : obj * out) : Prop :=
   match r with
-  | Ok v => snd x = ROk /\ snap_of (fst x) = (Some (v_prot v), v_unprot v, v_payload v, [])
+  | Ok v => snd x = ROk /\ snap_of (fst x) = (Some (v_prot v), v_unprot v, v_payload v, [], None)
   | Err => snd x = RErr
   | Panic => snd x = RPanic
   end.
 Definition view_out_r (r : res (view * list recip)) (x : obj * out) : Prop :=
   match r with
-  | Ok (v, rs) => snd x = ROk /\ snap_of (fst x) = (Some (v_prot v), v_unprot v, v_payload v, rs)
+  | Ok (v, rs) => snd x = ROk /\ snap_of (fst x) = (Some (v_prot v), v_unprot v, v_payload v, rs, None)
   | Err => snd x = RErr
   | Panic => snd x = RPanic
   end.
@@ -396,7 +402,7 @@ Proof.
   destruct (consume_gate prot (sg_key (pr_sig p))); cbn [negb view_out snd]; [|reflexivity].
   destruct (structure KSign1 (w_prot w) None ext (w_payload w)) as [tbs| |]; cbn [bind view_out snd res_out]; try reflexivity.
   destruct (sg_verify (pr_sig p) tbs sig); cbn [view_out fst snd]; [|reflexivity].
-  split; [reflexivity|]. unfold snap_of; cbn [o_prot o_unprot o_payload o_recips fresh]. reflexivity.
+  split; [reflexivity|]. unfold snap_of; cbn [o_prot o_unprot o_payload o_recips o_sigs fresh]. reflexivity.
 Qed.
 
 Theorem consume_refines_mac0 p data ext :
@@ -411,7 +417,7 @@ Proof.
   destruct (consume_gate prot (mc_key (pr_mac p))); cbn [negb view_out snd]; [|reflexivity].
   destruct (structure KMac0 (w_prot w) None ext (w_payload w)) as [tbs| |]; cbn [bind view_out snd res_out]; try reflexivity.
   destruct (mc_verify (pr_mac p) tbs sig); cbn [view_out fst snd]; [|reflexivity].
-  split; [reflexivity|]. unfold snap_of; cbn [o_prot o_unprot o_payload o_recips fresh]. reflexivity.
+  split; [reflexivity|]. unfold snap_of; cbn [o_prot o_unprot o_payload o_recips o_sigs fresh]. reflexivity.
 Qed.
 
 Theorem consume_refines_mac p data ext :
@@ -427,7 +433,7 @@ Proof.
   destruct (consume_gate prot (mc_key (pr_mac p))); cbn [negb view_out_r snd]; [|reflexivity].
   destruct (structure KMac (w_prot w) None ext (w_payload w)) as [tbs| |]; cbn [bind view_out_r snd res_out]; try reflexivity.
   destruct (mc_verify (pr_mac p) tbs sig); cbn [view_out_r fst snd]; [|reflexivity].
-  split; [reflexivity|]. unfold snap_of; cbn [o_prot o_unprot o_payload o_recips fresh]. reflexivity.
+  split; [reflexivity|]. unfold snap_of; cbn [o_prot o_unprot o_payload o_recips o_sigs fresh]. reflexivity.
 Qed.
 
 Theorem consume_refines_enc0 p data ext :
@@ -461,3 +467,74 @@ Proof.
   destruct (en_decrypt (pr_enc p) nonce ct aad) as [pt| |]; cbn [bind view_out_r snd res_out]; try reflexivity.
   unfold payload_ok. destruct pt as [|b r]; cbn [bind view_out_r fst snd]; (split; [reflexivity|]); unfold snap_of; reflexivity.
 Qed.
+
+(* ---------------------------------------------------------------- COSE_Sign as an object *)
+Lemma sigent_marshal_made pr sp u sig su : enc_cosemap u = Some su ->
+  sigent_marshal {| se_prot := pr; se_raw := sp; se_unprot := Some u; se_sig := Some sig |} = Some (enc_array [enc_bytes (Some sp); su; enc_bytes (Some sig)]).
+Proof. intro H. unfold sigent_marshal; cbn [se_sig se_unprot se_raw enc_headers_field]. rewrite H. reflexivity. Qed.
+
+Lemma sign_entries_all : forall ps pb ext payload,
+  sign_all ps pb ext payload =
+  match sign_entries ps pb ext payload with
+  | Ok l => match all_some (map sigent_marshal l) with Some raws => Ok raws | None => Err end
+  | Err => Err
+  | Panic => Panic
+  end.
+Proof.
+  induction ps as [|p r IH]; intros pb ext payload; cbn [sign_all sign_entries map all_some]; [reflexivity|].
+  destruct (headers_bytes (signer_protected (sg_key p))) as [sp|]; [|reflexivity].
+  destruct (enc_cosemap (signer_unprotected (sg_key p))) as [su|] eqn:Su; [|reflexivity].
+  destruct (structure KSign (Some pb) (Some sp) ext payload) as [tbs| |]; cbn [bind]; try reflexivity.
+  destruct (sg_sign p tbs) as [sig| |]; cbn [bind]; try reflexivity.
+  rewrite IH. destruct (sign_entries r pb ext payload) as [l| |]; cbn [bind map all_some]; try reflexivity.
+  rewrite (sigent_marshal_made _ _ _ _ _ Su).
+  destruct (all_some (map sigent_marshal l)); reflexivity.
+Qed.
+
+Definition sign_produce_then_marshal (o : obj) (ps : list sigprim) (ext : option bytes) : out :=
+  let '(o', r) := sign_produce_step o ps ext in match r with ROk => sign_marshal_out o' | _ => r end.
+
+(* in ANY state: WithSign followed by MarshalCBOR is the functional sign_produce on the exported fields *)
+Theorem produce_refines_sign o ps ext :
+  sign_produce_then_marshal o ps ext = prod_out (sign_produce ps (o_prot o) (o_unprot o) (o_payload o) ext).
+Proof.
+  unfold sign_produce_then_marshal, sign_produce_step, sign_produce. destruct ps as [|p0 pr]; [reflexivity|].
+  set (ps := p0 :: pr).
+  destruct (headers_bytes (omap (o_prot o))) as [pb|]; [|reflexivity].
+  rewrite sign_entries_all.
+  assert (U : o_unprot (match o_unprot o with Some _ => with_prot o (Some (omap (o_prot o))) | None => new_unprot (with_prot o (Some (omap (o_prot o)))) (Some []) end) = Some (omap (o_unprot o))).
+  { destruct (o_unprot o) eqn:E; cbn [with_prot new_unprot o_unprot omap]; [exact E|reflexivity]. }
+  destruct (sign_entries ps pb ext (o_payload o)) as [l| |]; cbn [res_out].
+  - unfold sign_marshal_out, with_sigs, marshal_sign; cbn [o_mm o_sigs w_unprot w_prot w_payload]. rewrite U. cbn [enc_headers_field].
+    destruct (enc_cosemap (omap (o_unprot o))); destruct (all_some (map sigent_marshal l)); cbn [bind prod_out]; reflexivity.
+  - destruct (enc_cosemap (omap (o_unprot o))); reflexivity.
+  - destruct (enc_cosemap (omap (o_unprot o))); reflexivity.
+Qed.
+
+Definition sign_decode_then_consume (vs : list sigprim) (data : bytes) (ext : option bytes) : obj * out :=
+  let '(o1, r1) := sign_decode_step fresh data in match r1 with ROk => sign_consume_step o1 vs ext | _ => (o1, r1) end.
+
+(* on a fresh object: UnmarshalCBOR followed by Verify is the functional sign_consume *)
+Theorem consume_refines_sign vs data ext :
+  match sign_consume false vs data ext with
+  | Ok (v, l) => snd (sign_decode_then_consume vs data ext) = ROk
+                 /\ snap_of (fst (sign_decode_then_consume vs data ext)) = (Some (v_prot v), v_unprot v, v_payload v, [], Some l)
+  | Err => snd (sign_decode_then_consume vs data ext) = RErr
+  | Panic => snd (sign_decode_then_consume vs data ext) = RPanic
+  end.
+Proof.
+  unfold sign_consume, sign_decode_then_consume, sign_decode_step, decoded_view.
+  destruct (unmarshal_wire KSign data) as [w| |]; cbn [bind snd]; try reflexivity.
+  destruct (sigs_decode (w_extra w)) as [sg| |]; cbn [bind snd]; try reflexivity.
+  destruct (headers_from_bytes (w_prot w)) as [prot| |]; cbn [bind snd]; try reflexivity.
+  rewrite payload_ok_false. cbn [bind v_prot v_unprot v_payload].
+  unfold sign_consume_step. cbn [o_mm o_sigs].
+  destruct vs as [|v0 vr]; [reflexivity|].
+  destruct sg as [[|s r]|]; cbn [snd fst]; try reflexivity.
+  destruct (verify_all (v0 :: vr) w ext (s :: r)) as [[]| |]; cbn [bind res_out snd fst]; try reflexivity.
+  split; [reflexivity|]. unfold snap_of; cbn [o_prot o_unprot o_payload o_recips o_sigs fresh]. reflexivity.
+Qed.
+
+(* Verify never changes the object; only a successful decode or WithSign changes what MarshalCBOR emits *)
+Theorem sign_consume_keeps_object o vs ext : fst (sign_consume_step o vs ext) = o.
+Proof. unfold sign_consume_step. destruct vs; [reflexivity|]. destruct (o_mm o); [|reflexivity]. destruct (o_sigs o) as [[|s0 r0]|]; reflexivity. Qed.
